@@ -20,8 +20,9 @@ import (
 )
 
 var (
-	tMutex = reflect.TypeOf(sync.Mutex{})
-	tCondP = reflect.TypeOf((*sync.Cond)(nil))
+	tMutex   = reflect.TypeOf(sync.Mutex{})
+	tRWMutex = reflect.TypeOf(sync.RWMutex{})
+	tCondP   = reflect.TypeOf((*sync.Cond)(nil))
 )
 
 // instanceLock finds the instance lock of a collection object.
@@ -36,6 +37,8 @@ func instanceLock(obj interface{}) sync.Locker {
 		switch f.Type() {
 		case tMutex:
 			return (*sync.Mutex)(unsafe.Pointer(f.UnsafeAddr()))
+		case tRWMutex:
+			return (*sync.RWMutex)(unsafe.Pointer(f.UnsafeAddr()))
 		case tCondP:
 			c := *(**sync.Cond)(unsafe.Pointer(f.UnsafeAddr()))
 			if c != nil {
